@@ -338,4 +338,8 @@ def run(F, rep):
     from engines import rule_accumulators
     rule_accumulators(F, rep, 'C06.A2', lambda g: g.file.endswith('/utilities.cpp') and 'ink' not in g.name, 1, 'the renaming helpers of utilities.cpp', 'whether the math of a component was modified (and must be written back) must not depend on the last cn element')
 
+    # ------------------------------------------------------------------ W: walks over the component tree are complete
+    import recursion as _recw
+    _recw.rule_walkers(F, rep, 'C06.W1', ['flattenComponentImports', 'updateComponentsVariablesUnitsNames', 'findAndReplaceComponentsCnUnitsNames', 'componentNames', 'createComponentNamesMap', 'unitsUsed', 'generateEquivalenceMap'], 7, 'flattening, renaming units and carrying equivalences over')
+
 
